@@ -143,6 +143,33 @@ func genPairs(r *Rng, emit func(Case), famA, famB []string, n int) {
 	}
 }
 
+// genSameRadicand: the two kinds of root of one radicand, created one right after the other (in both orders, through
+// every constructor, before and after the first digit of the first one is read): a Number depends on its own
+// constructor and arguments only, not on what was built before it.
+func genSameRadicand(emit func(Case)) {
+	type rd struct{ num, den string }
+	rads := []rd{{"2", "1"}, {"64", "1"}, {"8", "1"}, {"1", "4"}, {"14", "7"}, {"1234567", "1"}, {"1", "8"}, {"729", "1000000"}}
+	for i, x := range rads {
+		for k := range sqrtCtors {
+			if (k == 0 || k == 2) && x.den != "1" {
+				continue
+			}
+			for _, order := range []int{0, 1} {
+				opA, opB := sqrtCtors[k], cubeCtors[(k+order*i)%4]
+				if (opB == "CubeRoot" || opB == "CubeRootBigInt") && x.den != "1" {
+					opB = "CubeRootRat"
+				}
+				if order == 1 {
+					opA, opB = opB, opA
+				}
+				for _, v := range allVers {
+					emit(Case{Ver: v, Op: "Pair", Args: toks{opA, x.num, x.den, opB, x.num, x.den, itoa((i + k) % 2), "40", "40"}})
+				}
+			}
+		}
+	}
+}
+
 var sqrtCtors = []string{"Sqrt", "SqrtRat", "SqrtBigInt", "SqrtBigRat"}
 var cubeCtors = []string{"CubeRoot", "CubeRootRat", "CubeRootBigInt", "CubeRootBigRat"}
 
@@ -229,6 +256,7 @@ func genRoots(fam []string, p int64) generator {
 		}
 		genPairs(r, emit, fam, fam, np)
 		genPairs(r, emit, sqrtCtors, cubeCtors, np/2)
+		genSameRadicand(emit)
 		// different Numbers of this family computed at the same time by different goroutines
 		genConcRootsOf(r, emit, np, fam[2], 8)
 		genConcRootsOf(r, emit, np, fam[3], 8)
@@ -437,6 +465,7 @@ func genC03(tier string, r *Rng, emit func(Case)) {
 			}
 		}
 	}
+	genSameRadicand(emit)
 }
 
 func genC13(tier string, r *Rng, emit func(Case)) {
